@@ -41,6 +41,11 @@ func InitGenesis(ctx sdk.Context, k keeper.Keeper, state *types.GenesisState) {
 		k.SetAppForShortName(ctx, item.ShortName, item.Id)
 		k.SetAppForName(ctx, item.Name, item.Id)
 		k.SetApp(ctx, item)
+		for _, token := range item.GenesisToken {
+			if token.IsGovToken {
+				k.SetGenesisTokenForApp(ctx, item.Id, token.AssetId)
+			}
+		}
 	}
 
 	for _, item := range state.ExtendedPairVault {
